@@ -26,6 +26,8 @@ def run(ctx):
         Wd.carrier_programs(5, limit=40 if q else None, rng=ctx.rng) + \
         (Wd.carrier_programs(4, ("space", [16, 8, 0], True)) + Wd.carrier_programs(6, limit=300, rng=ctx.rng) if not q else [])
     _world.validate_programs(ctx, progs, "3..6 carriers of the same component types join, then leave in every order (each permutation), first leaver re-joins")
+    _world.validate_programs(ctx, [Wd.crowd_program(ctx.rng) for _ in range(20 if q else 200)],
+                             "a crowd of 14 carriers of one component type: the listing grows beyond ten entries, shrinks to a handful and grows again")
     # systems that make agents join and leave while a timestep is in progress (composition, Core_Trace.tla): the listings are
     # projected after every such operation, i.e. also in the middle of timesteps
     from ..drivers import core as CO
